@@ -411,3 +411,15 @@ pub fn check_frame(req_opcode: u8, req_opaque: u32, req_key: &[u8], r: &Resp) ->
     }
     Ok(())
 }
+
+pub fn hex_full(b: &[u8]) -> String {
+    let mut s = String::with_capacity(b.len() * 2);
+    for x in b {
+        s.push_str(&format!("{:02x}", x));
+    }
+    s
+}
+
+pub fn unhex(s: &str) -> Vec<u8> {
+    (0..s.len() / 2).filter_map(|i| u8::from_str_radix(&s[2 * i..2 * i + 2], 16).ok()).collect()
+}
